@@ -155,7 +155,7 @@ func TestVerifC01Decoder(t *testing.T) {
 
 	// on behalf of C20 the same enumeration runs with the buffer-ownership hook installed
 	var own *env.Own
-	if os.Getenv("VERIF_PROP") == "C20" {
+	if os.Getenv("VERIF_PROP") == "C20" || os.Getenv("VERIF_PROP") == "C04" {
 		own = env.InstallOwn(0xA5, false)
 		defer env.UninstallOwn()
 	}
